@@ -130,6 +130,8 @@ Fixpoint run_ops (fuel : nat) (r : rs) (l : list N) : list N :=
 Definition run_port (inp : list N) : list N :=
   match inp with
   | ck :: lim :: cs :: cr :: md :: mp :: ops =>
+      (* max_ports >= 1000 marks a consumer that gives up chunked messages (not a protocol-following consumer): oracle only *)
+      if 1000 <=? mp then [96] else
       let c := {| chunk := ck; limit := lim; cap_s := cs; cap_r := cr |} in
       run_ops (S (length ops)) {| rs_st := init c md mp; rs_sink := true; rs_out := [] |} ops
   | _ => [98]
